@@ -9,6 +9,14 @@ import (
 
 var Canceled = errors.New("context canceled")
 
+type deadlineExceededError struct{}
+
+func (deadlineExceededError) Error() string   { return "context deadline exceeded" }
+func (deadlineExceededError) Timeout() bool   { return true }
+func (deadlineExceededError) Temporary() bool { return true }
+
+var DeadlineExceeded error = deadlineExceededError{}
+
 type CancelFunc func()
 
 type Context interface {
@@ -34,40 +42,98 @@ type cancelCtx struct {
 	done     *vsched.Chan[struct{}]
 	err      error
 	children []*cancelCtx
+	deadline stdtime.Time
+	hasDL    bool
 }
 
 func (c *cancelCtx) Done() *vsched.Chan[struct{}]   { return c.done }
-func (c *cancelCtx) Deadline() (stdtime.Time, bool) { return stdtime.Time{}, false }
 func (c *cancelCtx) Value(key any) any              { return c.parent.Value(key) }
+func (c *cancelCtx) Deadline() (stdtime.Time, bool) {
+	if c.hasDL {
+		return c.deadline, true
+	}
+	return c.parent.Deadline()
+}
 func (c *cancelCtx) Err() error {
 	c.mu.Lock()
 	defer c.mu.Unlock()
 	return c.err
 }
 
-func (c *cancelCtx) cancel() {
+func (c *cancelCtx) cancel() { c.cancelWith(Canceled) }
+
+func (c *cancelCtx) cancelWith(err error) {
 	c.mu.Lock()
 	if c.err != nil {
 		c.mu.Unlock()
 		return
 	}
-	c.err = Canceled
+	c.err = err
 	vsched.Close(c.done)
 	ch := c.children
 	c.children = nil
 	c.mu.Unlock()
 	for _, k := range ch {
-		k.cancel()
+		k.cancelWith(err)
 	}
+}
+
+type valueCtx struct {
+	Context
+	key, val any
+}
+
+func (v *valueCtx) Value(key any) any {
+	if key == v.key {
+		return v.val
+	}
+	return v.Context.Value(key)
+}
+
+func WithValue(parent Context, key, val any) Context { return &valueCtx{parent, key, val} }
+
+// nearest enclosing cancellable context (value contexts are transparent)
+func parentCancel(parent Context) *cancelCtx {
+	for {
+		switch p := parent.(type) {
+		case *cancelCtx:
+			return p
+		case *valueCtx:
+			parent = p.Context
+		default:
+			return nil
+		}
+	}
+}
+
+func WithTimeout(parent Context, d stdtime.Duration) (Context, CancelFunc) {
+	c, cancel := WithCancel(parent)
+	cc := c.(*cancelCtx)
+	dl := vsched.Now().Add(d)
+	if pd, ok := parent.Deadline(); ok && pd.Before(dl) {
+		return c, cancel // the parent's earlier deadline governs
+	}
+	cc.deadline, cc.hasDL = dl, true
+	if d <= 0 {
+		cc.cancelWith(DeadlineExceeded)
+		return c, cancel
+	}
+	stop := vsched.AfterFuncSpawn(d, func() { cc.cancelWith(DeadlineExceeded) }) // the runtime cancels from the timer's goroutine
+	return c, func() { stop(); cancel() }
+}
+
+func WithDeadline(parent Context, t stdtime.Time) (Context, CancelFunc) {
+	return WithTimeout(parent, t.Sub(vsched.Now()))
 }
 
 func WithCancel(parent Context) (Context, CancelFunc) {
 	c := &cancelCtx{parent: parent, done: vsched.NewChan[struct{}](0)}
-	if p, ok := parent.(*cancelCtx); ok {
+	if p := parentCancel(parent); p != nil {
 		p.mu.Lock()
 		if p.err != nil {
+			err := p.err
 			p.mu.Unlock()
-			c.cancel()
+			c.cancelWith(err)
 		} else {
 			p.children = append(p.children, c)
 			p.mu.Unlock()
